@@ -41,6 +41,10 @@ type stream struct {
 	rerr    error // terminal error for reader after drain
 	rclosed bool  // reader side closed: reads fail at once, writes fail
 
+	// errWithData: the Read that hands over the last bytes before the end of the stream returns the terminal
+	// error together with them (io.Reader allows both; sockets and TLS connections do it)
+	errWithData bool
+
 	maxRead   int   // per-Read cap (0 = none)
 	readSizes []int // scripted caps for the next reads
 
@@ -142,6 +146,13 @@ func (s *stream) read(p []byte) (int, error) {
 	}
 	s.size -= n
 	s.cond.Broadcast()
+	if s.errWithData && len(s.chunks) == 0 && s.wclosed {
+		err := s.rerr
+		if err == nil {
+			err = io.EOF
+		}
+		return n, err
+	}
 	return n, nil
 }
 
@@ -311,6 +322,14 @@ func (e *End) Closed() (bool, time.Time) {
 // CloseWrite ends this end's outgoing direction: after the other side has
 // drained what was written it reads err (io.EOF when err is nil).
 func (e *End) CloseWrite(err error) { e.out.closeWrite(err) }
+
+// SetErrWithLastBytes: the other side's Read that drains the last bytes written before CloseWrite
+// returns them together with the terminal error instead of returning the error on the next call.
+func (e *End) SetErrWithLastBytes(on bool) {
+	e.out.mu.Lock()
+	e.out.errWithData = on
+	e.out.mu.Unlock()
+}
 
 // WriteChunks writes p so that the other side's Reads see the given chunking
 // (sizes are consumed in order; the remainder goes as one chunk).
